@@ -178,6 +178,94 @@ Definition matches_date (internal : date) (date_str : str) (c : dcmp) : bool :=
       end
   end.
 
+(** ** shared by the text keys (Model/SearchText.v) and the field semantics (Spec/Search.v) *)
+
+(** the header lines: strings.Split(raw, "\n"), each TrimRight(line, "\r"), up to the first empty one *)
+Fixpoint header_lines (lines : list str) : list str :=
+  match lines with
+  | [] => []
+  | l :: ls => match trim_right l [CR] with
+               | [] => []
+               | line => line :: header_lines ls
+               end
+  end.
+
+(** [line[strings.Index(line, ":")+1:]] *)
+Definition value_after_colon (line : str) : str :=
+  match index line [colon] with
+  | Some i => skipn (S i) line
+  | None => line
+  end.
+
+(** net/mail.ParseDate, modelled on its canonical domain: RFC 5322 date-time
+    [ day-of-week "," ] day month year hour ":" minute [ ":" second ] zone
+    with blank-separated parts, one- or two-digit day and hour, four-digit
+    year, zone = sign and four digits or an alphabetic zone of three letters /
+    four ending in T / "UT".  The result is the calendar date AS WRITTEN.
+    (Go additionally accepts two-digit years, comments and text after the
+    zone; those forms are outside the model and are not generated.) *)
+Definition day_names : list str := [S_ "SUN"; S_ "MON"; S_ "TUE"; S_ "WED"; S_ "THU"; S_ "FRI"; S_ "SAT"].
+Definition two_digits_below (a b : ascii) (lim : Z) : bool :=
+  is_digit a && is_digit b && (digits_val [a; b] 0 <? lim).
+Definition zone_ok (z : str) : bool :=
+  match z with
+  | [s; a; b; c; d] =>
+      ((Ascii.eqb s "+"%char || Ascii.eqb s minus) && forallb is_digit [a; b; c; d]
+         && (digits_val [a; b] 0 <=? 24) && (digits_val [c; d] 0 <? 60))
+  | [a; b; c] => forallb is_upper [a; b; c]
+  | [a; b; c; d] => forallb is_upper [a; b; c; d] && Ascii.eqb d "T"%char
+  | [a; b] => Ascii.eqb a "U"%char && Ascii.eqb b "T"%char
+  | _ => false
+  end.
+Definition time_ok (t : str) : bool :=
+  let hms (h : str) (r : str) : bool :=
+    match h with
+    | [h1] => is_digit h1
+    | [h1; h2] => two_digits_below h1 h2 24
+    | _ => false
+    end &&
+    match r with
+    | [m1; m2] => two_digits_below m1 m2 60
+    | [m1; m2; c; s1; s2] => two_digits_below m1 m2 60 && Ascii.eqb c colon && two_digits_below s1 s2 60
+    | _ => false
+    end in
+  match t with
+  | h1 :: c :: r => if Ascii.eqb c colon then hms [h1] r
+                    else match r with c2 :: r' => if Ascii.eqb c2 colon then hms [h1; c] r' else false | [] => false end
+  | _ => false
+  end.
+Definition dow_token (w : str) : bool :=
+  match w with
+  | [a; b; c; d] => existsb (str_eqb (to_upper [a; b; c])) day_names && Ascii.eqb d ","%char
+  | _ => false
+  end.
+(** blank-separated parts; [sep] says what a blank is *)
+Fixpoint fields_by_aux (sep : ascii -> bool) (s : str) (cur : str) : list str :=
+  match s with
+  | [] => match cur with [] => [] | _ => [rev cur] end
+  | c :: s' =>
+      if sep c
+      then match cur with [] => fields_by_aux sep s' [] | _ => rev cur :: fields_by_aux sep s' [] end
+      else fields_by_aux sep s' (c :: cur)
+  end.
+Definition fields_by (sep : ascii -> bool) (s : str) : list str := fields_by_aux sep s [].
+
+Definition mail_date_by (sep : ascii -> bool) (v : str) : option date :=
+  let toks := fields_by sep v in
+  let toks := match toks with w :: rest => if dow_token w then rest else toks | [] => [] end in
+  match toks with
+  | [dd; mon; yyyy; tm; zone] =>
+      if forallb is_digit dd && ((length dd =? 1) || (length dd =? 2))%nat
+         && forallb is_digit yyyy && (length yyyy =? 4)%nat && (length mon =? 3)%nat
+         && time_ok tm && zone_ok zone
+      then mk_date dd mon yyyy else None
+  | _ => None
+  end.
+(** net/mail.ParseDate hands the parts to time.Parse, whose layouts are
+    separated by SPACE only: a horizontal tab between the parts (RFC 5322 FWS
+    allows it, e.g. a Date: field folded with a tab) makes the parse fail *)
+Definition mail_date (v : str) : option date := mail_date_by (fun c => Ascii.eqb c sp) v.
+
 (** ** the keys that need the message text (Model/SearchText.v instantiates them) *)
 Record text_ops := mk_text_ops {
   t_header_or_body : msg -> kw -> str -> bool;   (* matchesHeaderOrBody *)
